@@ -305,18 +305,24 @@ fn main() {
                     }
                 }
                 zw_shape = false;
+                // every third random enum carries explicit discriminants that differ from the variant positions (descending,
+                // under a primitive representation): the codec's variant index is the position, never the discriminant.
+                // Decided from the name, not from the generator state, so the other shapes of a seed stay as they were.
+                let explicit = name.bytes().map(|b| b as usize).sum::<usize>() % 3 == 0;
                 let decl: Vec<String> = vars
                     .iter()
                     .enumerate()
                     .map(|(k, fs_)| {
+                        let disc = if explicit { format!(" = {}", (vars.len() - k) * 5 + 2) } else { String::new() };
                         if fs_.is_empty() {
-                            format!("V{}", k)
+                            format!("V{}{}", k, disc)
                         } else {
-                            format!("V{}({})", k, fs_.iter().map(|t| t.src.clone()).collect::<Vec<_>>().join(", "))
+                            format!("V{}({}){}", k, fs_.iter().map(|t| t.src.clone()).collect::<Vec<_>>().join(", "), disc)
                         }
                     })
                     .collect();
-                writeln!(defs, "    pub enum {}{}{} {{ {} }}", name, gen_decl, where_decl, decl.join(", ")).unwrap();
+                writeln!(defs, "    {}pub enum {}{}{} {{ {} }}", if explicit { "#[repr(u32)] " } else { "" }, name, gen_decl, where_decl,
+                    decl.join(", ")).unwrap();
                 let arms: Vec<String> = vars
                     .iter()
                     .enumerate()
